@@ -284,3 +284,31 @@ def swap_variants(cases, seed, every=3):
         out.append(Case(c.name + 's', c.header + ['swapobj %d %d' % (i, j) if j > i and j < len(c.ops) else 'swapobj %d' % i],
                         c.ops, c.origin))
     return out
+
+
+def deep_cases(n=220):
+    """Deep, unbalanced plain binary trees (a chain, a comb whose long left spine has a right child at every node, a
+    zigzag): deeper than any balanced tree and than the number of bits of a size_t; traversed, searched, partly
+    erased, cleared and used again."""
+    def deep(name, keys, kind='bin'):
+        hdr = ['keys ' + ' '.join(map(str, keys[i:i + 50])) for i in range(0, len(keys), 50)]
+        m = len(keys)
+        ops = ['insert %d' % i for i in range(m)]
+        ops += ['size', 'height', 'foreach fwd 0', 'foreach rev 0', 'foreach fwd %d' % (m + 7), 'find %d' % keys[m // 2],
+                'find %d' % keys[-1], 'erase %d' % keys[m // 2], 'erase %d' % keys[0], 'erase %d' % keys[-1],
+                'foreach fwd 0', 'size', 'clear', 'size', 'insert 0', 'insert 1', 'foreach rev 0', 'clear']
+        return Case(name, hdr + ['kind ' + kind, 'cmpmode 0'], ops, 'random')
+    out = [deep('deep_chain_up', list(range(n))), deep('deep_chain_down', list(range(n, 0, -1)))]
+    comb = []
+    for i in range(100):
+        comb += [10 * (100 - i), 10 * (100 - i) + 5]
+    out.append(deep('deep_comb_left', comb))
+    out.append(deep('deep_comb_right', [-k for k in comb]))
+    zig = []
+    lo, hi = 0, 2 * n
+    for i in range(n):
+        zig.append(lo if i % 2 == 0 else hi)
+        lo, hi = (lo + 1, hi) if i % 2 == 0 else (lo, hi - 1)
+    out.append(deep('deep_zigzag', zig))
+    out.append(deep('deep_chain_rb', list(range(n)), 'rb'))
+    return out
